@@ -40,7 +40,22 @@ def run_sp(case):
                 classes.add("more urgent arrival during a transmission")
     if multi_level_starts >= 2:
         classes.add(">=2 levels backlogged at >=2 service starts")
+    fl = {f for f, _ in case["table"]}
+    if case.get("f2c") and any(c in fl and c != f for f, c in case["f2c"]):
+        classes.add("flow2class maps onto other flows' ids")
     return {"nontrivial": multi_level_starts >= 2, "classes": sorted(classes)}
+
+
+def sp_f2c(flows, mode):
+    """SP's priorities are per flow; flow2class only labels packets. Modes: identity, classes disjoint from the flow ids, classes
+    that are themselves flow ids of the table (rotated / folded)"""
+    if mode == 0:
+        return None
+    if mode == 1:
+        return [[f, 10 + (f % 2)] for f in flows]
+    if mode == 2:
+        return [[f, flows[(i + 1) % len(flows)]] for i, f in enumerate(flows)]
+    return [[f, flows[i % 2]] for i, f in enumerate(flows)]
 
 
 def strategy(tier):
@@ -48,12 +63,12 @@ def strategy(tier):
 
     def build(n):
         flows = st.permutations(list(range(6))).map(lambda p: list(p)[:n])
-        return st.tuples(flows, st.lists(st.integers(1, 4), min_size=n, max_size=n), st.booleans()).flatmap(
+        return st.tuples(flows, st.lists(st.integers(1, 4), min_size=n, max_size=n), st.integers(0, 3)).flatmap(
             lambda t: st.tuples(schedlab.nice_rate(),
                                 kgen.weighted([(schedlab.sched_workload(t[0], 45 if big else 28, exact=True), 3),
                                                (schedlab.sched_workload(t[0], 30, static=True), 1)])).map(
                 lambda rw: {"kind": "SP", "exact": True, "rate": rw[0], "table": [[f, v] for f, v in zip(t[0], t[1])],
-                            "f2c": [[f, 10 + (f % 2)] for f in t[0]] if t[2] else None, "wl": rw[1]}))
+                            "f2c": sp_f2c(t[0], t[2]), "wl": rw[1]}))
     return st.integers(2, 5).flatmap(build)
 
 
@@ -66,7 +81,8 @@ PROP = Property(
           "rules out aborted transmissions. Non-trivial = >=2 priority levels simultaneously backlogged at >=2 service starts."),
     facets=[Facet("sp", strategy, run_sp, quick=1200, thorough=8000,
                   essential=[">=2 levels backlogged at >=2 service starts", "higher level served over waiting lower level",
-                             "more urgent arrival during a transmission", "equal priorities backlogged"])],
+                             "more urgent arrival during a transmission", "equal priorities backlogged",
+                             "flow2class maps onto other flows' ids"])],
     assumptions=["'waiting at that instant' = arrival observed (tap order) before the previous exit; same-instant arrivals after it "
                  "may or may not have been seen by the scheduler"],
 )
